@@ -48,4 +48,4 @@ Example legacy_rewrites :
   fix_legacy_url "type.googleapis.com/tapdance.GenericTransportParams" = "type.googleapis.com/proto.GenericTransportParams"
   /\ fix_legacy_url "type.googleapis.com/proto.GenericTransportParams" = "type.googleapis.com/proto.GenericTransportParams"
   /\ fix_legacy_url "" = "".
-Proof. repeat split; vm_compute; reflexivity. Qed.
+Proof. split; [vm_compute; reflexivity|]. split; vm_compute; reflexivity. Qed.
